@@ -193,7 +193,8 @@ HFailed(g, calls) ==
 
 -----------------------------------------------------------------------------
 (* (M) mechanism layer: the update() methods as written *)
-FarFluid == 1000000       \* IOEvaluate's default maxdist for the fluid array
+FarFluid == 1000000       \* IOEvaluate's default maxdist (1000 length units) for the
+                          \* fluid array: beyond every generated position
 IoId(d, maxd) == IF d > 0 /\ d <= maxd THEN 1 ELSE IF d > maxd THEN 2 ELSE 0
 SelIdx(q, T(_)) == SelectSeq([k \in 1..Len(q) |-> k], LAMBDA k : T(q[k]))
 Gather(q, idx) == [j \in 1..Len(idx) |-> q[idx[j]]]
@@ -250,6 +251,15 @@ Drift(g, c) ==
 (* Mode "ind": the pre-state is ANY placement of NIn + NFl + NOut rows     *)
 (* over the three arrays and the window Win, followed by one round of      *)
 (* updates - the inductive step for "arbitrarily many update calls".       *)
+(* Instances (spec/cfg/InletOutlet.*.cfg; every state is distinct because  *)
+(* the history of calls is part of the state):                             *)
+(*   ind    3 rows, window -3..5, stages {1,2}, both orders     189 540    *)
+(*   ind4   4 rows, same                                      2 558 790    *)
+(*   deep   1 inlet + 1 fluid, Disp -1..2, 3 rounds              397 205    *)
+(*   histq  2 inlet + 1 fluid, Disp -1..2, 2 rounds, both orders 299 029    *)
+(*   hist   2 inlet + 1 fluid + 1 outlet, Disp -1..2, 2 rounds 1 243 477    *)
+(*   wide   3 inlet + 3 fluid, Lin 3, Disp -2..3, 1 round,                  *)
+(*          stages {1,2}, both orders (wideq: stage 2, in-out)   662 515    *)
 CONSTANTS Mode, NIn, NFl, NOut, LinC, XC, LoutC, Back, Fwd, Rounds, Stages,
           OrderNames, CopyQs, WinLo, WinHi, Mutant
 Disp == (-Back)..Fwd                    \* per-particle displacements of one round
